@@ -715,7 +715,12 @@ fn space_publication(ctx: &Ctx, fx: &Fx) {
     let core_tag = [0usize, 1, plain, special];
     let cores: [&[usize]; 5] = [&[0, 1, 2, 3, 4, 5], &core_tag, &[1, 3], &[0, 3], &[2]];
     let mid = [6, fx.n_tags_mid(), fx.rsyncs.len(), fx.contents.len(), fx.hashes.len()];
-    let cases = star2(&full, &mid, &cores, k);
+    let mut cases = star2(&full, &mid, &cores, k);
+    if ctx.tier.is_thorough() {
+        // every pair of fields on the full alphabets (texts of <= 3 units) as well
+        cases.extend(star(&full, &cores, 2));
+        cases.sort(); cases.dedup();
+    }
     run_cases(&cases, &col, |c, l| {
         let e = El { kind: c[0], tag: c[1], uri: c[2], content: c[3], hash: c[4] };
         // fields a kind does not use stay on their first core value, so that no message is built twice
@@ -725,7 +730,7 @@ fn space_publication(ctx: &Ctx, fx: &Fx) {
     });
     sp.set("alphabet_sizes", serde_json::json!({"kinds": 6, "tags": fx.n_tags(), "uris": fx.rsyncs.len(), "contents": fx.contents.len(), "hashes": fx.hashes.len(), "k": k}));
     sp.sample_str(|| String::from_utf8_lossy(&pub_write(&delta_of(fx, &[El { kind: 1, tag: special, uri: 3, content: 3, hash: 2 }]))).into_owned());
-    col.finish(true, &format!("star product, k = {k} on texts of <= 2 units and long values, k = 1 on texts of <= {} units", ctx.tier.pick(2, 3)));
+    col.finish(true, ctx.tier.pick("star product, k = 2 on texts of <= 2 units and long values", "star product, k = 3 on texts of <= 2 units and long values, k = 2 on texts of <= 3 units"));
 
     // --- sequences of up to 3 elements over a small element alphabet
     let sp = ctx.space("pub.delta.sequences",
@@ -1105,7 +1110,10 @@ fn space_seeds(ctx: &Ctx, fx: &Fx) {
         (Parser::Prov, "list.prefixed", format!("<u:message xmlns:u=\"{PROV_NS}\" version=\"1\" sender=\"s\" recipient=\"r\" type=\"list\"/>")),
         (Parser::Pub, "report_error.tag+failed_pdu.publish", format!("<msg xmlns=\"{PUB_NS}\" version=\"4\" type=\"reply\"><report_error error_code=\"no_object_present\" tag=\"t&amp;1\"><error_text>text with \"quotes\" and 'apostrophes' ></error_text><failed_pdu><publish tag=\"x\" uri=\"rsync://h/m/a&amp;b\" hash=\"{h}\">QUJD</publish></failed_pdu></report_error></msg>")),
         (Parser::Pub, "report_error.failed_pdu.withdraw", format!("<msg xmlns=\"{PUB_NS}\" version=\"4\" type=\"reply\"><report_error error_code=\"other_error\"><error_text>t</error_text><failed_pdu><withdraw tag=\"\" uri=\"rsync://h/m/a\" hash=\"{h}\"/></failed_pdu></report_error><report_error error_code=\"xml_error\" tag=\"\"><error_text>u</error_text></report_error></msg>")),
-        (Parser::Pub, "report_error.no-error_text", format!("<msg xmlns=\"{PUB_NS}\" version=\"4\" type=\"reply\"><report_error error_code=\"xml_error\"/></msg>")),
+        // A report_error without <error_text> is deliberately NOT a judged seed: such a value cannot be
+        // constructed from field values (ReportError's constructor always sets a text), and on re-encoding the
+        // library fills in the default text of the error code on purpose (error_text_or_default). Demanding
+        // equality there would ask for more than the property states (recorded in DESIGN.md, "False alarms").
         (Parser::Pub, "publish.no-tag", format!("<msg xmlns=\"{PUB_NS}\" version=\"4\" type=\"query\"><publish uri=\"rsync://h/m/a\">QUJD</publish><withdraw uri=\"rsync://h/m/b\" hash=\"{h}\"/></msg>")),
         (Parser::Pub, "publish.empty-tag", format!("<msg xmlns=\"{PUB_NS}\" version=\"4\" type=\"query\"><publish tag=\"\" uri=\"rsync://h/m/a\">QUJD</publish></msg>")),
         (Parser::Pub, "publish.char-refs", format!("<msg xmlns=\"{PUB_NS}\" version=\"4\" type=\"query\"><publish tag=\"&#60;&#x26;&#34;\" uri=\"rsync://h/m/a&#38;b\">QUJD</publish></msg>")),
